@@ -795,6 +795,25 @@ def judge_sampled(ctx, doc, partner, case, kind, res_a, res_b, pi, tol):
         if not dev <= tol:
             ctx.viol("%s:gaussian:post-measurement-covariance" % kind,
                      "covariance after a mid-circuit general-dyne measurement differs from the %s partner by %.3g > tol %.3g" % (kind, dev, tol), case)
+        # the outcome is a draw from the same seeded generator with the same (mean, covariance) sub-blocks in both runs: when
+        # the two runs did observe the same outcome, the conditional means must agree as well (a seeded change that paired the
+        # outcome entries with the wrong measured modes for non-ascending tuples left the covariance untouched)
+        oa_ = np.array([float(v) for v in res_a.branches[0].outcome])
+        ob_ = np.array([float(v) for v in res_b.branches[0].outcome])
+        if oa_.shape == ob_.shape and oa_.size and float(np.abs(oa_ - ob_).max()) <= 1e-9 * max(1.0, float(np.abs(oa_).max())):
+            ctx.c["gaussian_post_measurement_mean_comparisons"] = ctx.c.get("gaussian_post_measurement_mean_comparisons", 0) + 1
+            ma, mb = np.array(sa.xxpp_mean_vector, dtype=float), np.array(sb.xxpp_mean_vector, dtype=float)[idx]
+            # the conditional mean is (gain) x (outcome - mean): its rounding error scales with the outcome, whose unmeasured
+            # homodyne quadrature is noise of order 1e3..1e4
+            mtol = max(tol, 1e-9 * max(1.0, float(np.abs(oa_).max()), float(np.abs(ma).max())))
+            mdev = _maxdev(ma, mb)
+            ctx.dev(mdev, mtol)
+            if not mdev <= mtol:
+                ctx.viol("%s:gaussian:post-measurement-mean" % kind,
+                         "both runs observed the outcome %s, but the mean after the mid-circuit general-dyne measurement differs from the %s partner by "
+                         "%.3g > tol %.3g" % (np.round(oa_, 6).tolist()[:6], kind, mdev, mtol), case)
+        else:
+            ctx.c["gaussian_post_measurement_outcomes_differ"] = ctx.c.get("gaussian_post_measurement_outcomes_differ", 0) + 1
         return
     sa = [tuple(int(x) for x in s) for s in res_a.samples]
     sb = [tuple(int(x) for x in s) for s in res_b.samples]
@@ -991,7 +1010,7 @@ def gen_gaussian(rng, tier, for_commute):
         ins.append({"t": "Thermal", "m": None, "p": {"mean_photon_numbers": [float(x) for x in rng.uniform(0, 2, size=d)]}})
     pool = list(G.PASSIVE_GATES) + list(G.ACTIVE_GATES) * 2 + list(G.DISPLACEMENTS) + ["Attenuator"]
     ngates = int(rng.integers(2 if for_commute else 1, 8))
-    dyne_at = int(rng.integers(1, ngates + 1)) if (not for_commute and d >= 2 and rng.random() < 0.2) else None
+    dyne_at = int(rng.integers(1, ngates + 1)) if (not for_commute and d >= 2 and rng.random() < 0.35) else None
     active = list(range(d))
     for gi in range(ngates):
         if dyne_at is not None and gi == dyne_at and len(active) >= 2:
